@@ -125,7 +125,7 @@ class C01(object):
                 "refused_call": rnd.random() < 0.4,
                 # the table object had read another file (sc/fc titles, other detector positions) before it read this one,
                 # which uses the older xc/yc titles
-                "reread_xcyc": rnd.random() < 0.2,
+                "reread_xcyc": rnd.random() < 0.2, "position_story": rnd.choice([None, None, "fast", "slow"]),
                 # history: a long-lived columnfile first updated with OTHER parameters, which are then edited in place
                 "history": None if rnd.random() < 0.5 else {"first_pars": (draw_pars(rnd) if rnd.random() < 0.6 else "tiny"),
                                                             "tiny": [rnd.choice(["distance", "y_center", "z_center", "y_size", "z_size",
@@ -258,6 +258,7 @@ class C01(object):
         enginea.apply_cfg(sim, cfgP, strict=0, track_conflicts=0, pct_est=max(20, 45 * n // cfgP["team"]), step_cap=4000000000)
         sim.begin_run()
         Pcols = {}
+        story_damage, position_story = None, 0
         reread = 0
         refusal_damage = None
         with contextlib.redirect_stdout(io.StringIO()):
@@ -305,7 +306,20 @@ class C01(object):
                 cp.updateGV(translation=translation, fast=True)
                 Pcols = {c: np.asarray(cp.getcolumn(c)) for c in ("gx", "gy", "gz")}
             elif route == "updateGeometry":
-                cp.updateGeometry(pars=P2, translation=translation, fast=True)
+                if desc.get("position_story") and translation is None:
+                    # the table (and a second one holding the same parameter object) was first updated for a grain at another
+                    # position, given as translation=; the update without it that follows is for the parameter set's own t
+                    other = base.copy()
+                    cp.updateGeometry(pars=P2, translation=(91.0, -17.5, 33.25), fast=desc["position_story"] == "fast")
+                    other.updateGeometry(pars=P2, fast=True)
+                    cp.updateGeometry(fast=True)
+                    for c_ in COLS:
+                        if np.asarray(other.getcolumn(c_)).tobytes() != np.asarray(cp.getcolumn(c_)).tobytes():
+                            story_damage = c_
+                            break
+                    position_story = 1
+                else:
+                    cp.updateGeometry(pars=P2, translation=translation, fast=True)
                 Pcols = {c: np.asarray(cp.getcolumn(c)) for c in COLS}
             elif route == "updateGV":
                 cp.updateGV(pars=P2, translation=translation, fast=True)
@@ -339,6 +353,10 @@ class C01(object):
                 Pcols = {"lgx": gx, "lgy": gy, "lgz": gz}
         stP = sim.stats()
         sts.append(stP)
+        if viol is None and story_damage is not None:
+            viol = {"class": "fast-route-differs", "key": "geometry:position-leaks",
+                    "detail": "after updateGeometry(translation=...) for a grain elsewhere, a table sharing the parameter object gives "
+                              "another %s than the table that was updated without a translation" % story_damage}
         if viol is None and refusal_damage is not None:
             viol = {"class": "refused-call-modified-output", "key": "geometry:refused-call-modified-output",
                     "detail": "sf2gv(out=gv) refused a call (omega one element short) but the caller's g-vector array was overwritten "
@@ -400,6 +418,7 @@ class C01(object):
         meas["second_Ctransform_alive"] = 1 if ct_other is not None else 0
         meas["preexisting_derived_columns"] = {str(desc.get("preexisting")): 1}
         meas["table_object_reused_for_an_xc/yc_file"] = reread
+        meas["update_after_a_translation=_update"] = position_story
         meas["history_runs(in-place parameter edit between updates)"] = 1 if (desc.get("history") and route in ("updateGeometry", "updateGV")) else 0
         meas["branch_cut_peaks_excluded"] = int(cut.sum())
         meas["np_empty_garbage_buffers"] = self.proxy.count
